@@ -154,11 +154,23 @@ def check(ctx, rep):
         rep.fail("R12a", "DirHandler", detail="directory handler not found")
         return
     done = set()
+    pairs = []
     for C in prog.subclasses(dirbase):
         for c in prog.mro(C):
             for m in c.methods.values():
-                if prog.resolve_method(C, m.name) is not m:
-                    continue
+                if prog.resolve_method(C, m.name) is m:
+                    pairs.append((C, m))
+    # ... and methods of the file-system view that walk a directory themselves, when a listing calls them
+    vfs0 = ctx.cls("handlers.base.VFS_Real")
+    called_on_vfs = {n.func.attr for _, m in pairs for n in ast.walk(m.node)
+                     if isinstance(n, ast.Call) and isinstance(n.func, ast.Attribute) and norm(n.func.value).endswith("vfs")}
+    for V in (prog.subclasses(vfs0) if vfs0 else []):
+        for m in V.methods.values():
+            if m.name in called_on_vfs and m.name != "listdir" and (V, m) not in pairs:
+                pairs.append((V, m))
+    if True:
+        if True:
+            for C, m in pairs:
                 for loop in entry_loops(m):
                     rep.analysed(m.qualname)
                     for call, t in eff.calls_of(m, C):
